@@ -210,6 +210,12 @@ def run_rules(mod, ctx: Ctx, only: Optional[set[str]] = None) -> None:
             n_fl = inline_test_flags_repo(ctx.repo)
             if n_fl:
                 ctx.note(f"single-assignment test flags replaced by their test (sa/canon.py C10): {n_fl}")
+        if os.environ.get("SA_NO_SURFACE") != "1":
+            from .canon2 import surface_forms_repo
+
+            n_sf = surface_forms_repo(ctx.repo)
+            if n_sf:
+                ctx.note(f"surface forms rewritten (sa/canon2.py C11-C14: walrus tests, bound partials, counting zip, exit-stack callbacks): {n_sf}")
         n_canon = canon_repo(ctx.repo)
         if os.environ.get("SA_NO_INDEXLOOPS") != "1":
             from .canon import index_loops_repo
@@ -219,6 +225,13 @@ def run_rules(mod, ctx: Ctx, only: Optional[set[str]] = None) -> None:
                 ctx.note(f"index loops rewritten as enumerate / zip (sa/canon.py C9): {n_il}")
         rep = normalise_repo(ctx.repo, ctx.keep_names)
         n_canon += canon_repo(ctx.repo)
+        if os.environ.get("SA_NO_THREAD") != "1":
+            from .canon2 import thread_none_tests_repo
+
+            n_th = thread_none_tests_repo(ctx.repo)
+            if n_th:
+                n_canon += canon_repo(ctx.repo)
+                ctx.note(f"None-tests threaded into the branches that decide them (sa/canon2.py C15): {n_th}")
         if os.environ.get("SA_NO_MERGE") != "1":
             from .canon import merge_reassignments_repo
 
